@@ -13,11 +13,17 @@ Proved:
 * the builder rejects exactly the documented configurations (`C16_synctest_rejects`);
 * the comparison step: the first checksum seen for a frame is recorded, every later save of that
   frame inside the check window is compared against it (`C13_compare`).
-Decided on traces (monitor C13, families sync / syncglitch): detection of a non-deterministic
-step within check_distance + 2 calls, naming the first affected frame.
+* `C13_reports_exact` — for EVERY state, what one call reports: nothing while warming up; otherwise
+  `MismatchedChecksum` exactly when some frame in `current - check_distance ..= current` has its
+  cell holding that frame with a checksum different from the first one remembered inside the
+  window, naming exactly those frames in ascending order (the comparison window and the pruning,
+  with no off-by-one left to chance).
+Decided on traces (monitor C13, families sync / syncglitch): that a non-deterministic step leads to
+such a cell/history disagreement within check_distance + 2 calls, first at the frame after it.
 -/
 import GgrsModel.Properties.C16
 import GgrsModel.Proofs.SyncTestProof
+import GgrsModel.Proofs.SyncTestWindow
 
 namespace Ggrs.SyncTest
 
@@ -83,5 +89,18 @@ def c13Demo : Nat → SyncTest → Option (List Nat)
 example : (match SyncTest.new 2 8 2 0 .repeatLast with
     | .ok s0 => c13Demo 5 s0
     | _ => none) = some [2, 2, 2, 6, 6] := by decide +kernel
+
+end Ggrs
+
+namespace Ggrs
+
+/-- **C13, the comparison window exactly (every state).** See `advanceFrame_reports`. -/
+theorem C13_reports_exact (s s' : SyncTest) (r : Except GgrsError (List Request))
+    (h : s.advanceFrame = .ok (s', r)) :
+    ((decide (s.checkDistance > 0) && decide (s.sync.currentFrame > (s.checkDistance : Int))) = true ∧ stReported s ≠ [] →
+      r = .error (.mismatchedChecksum s.sync.currentFrame (stReported s))) ∧
+    (((decide (s.checkDistance > 0) && decide (s.sync.currentFrame > (s.checkDistance : Int))) = false ∨ stReported s = []) →
+      ∀ e, r = .error e → e = .invalidRequest) :=
+  advanceFrame_reports s s' r h
 
 end Ggrs
